@@ -972,6 +972,7 @@ class IMAPClientCommand:
         self.list_patterns: list[str] = []
         self.list_status_atts: list[StatusAtt] = []
         self.list_mailbox: str = ""
+        self.list_reference: str = ""
 
         self._p_simple_string(" ")
 
@@ -993,12 +994,13 @@ class IMAPClientCommand:
         before_ref = self.input
         self.mailbox_name = self._p_mailbox()
         ref_text = before_ref[: len(before_ref) - len(self.input)]
+        self.list_reference = self.mailbox_name
         if (
             self.mailbox_name
             and not self.mailbox_name.endswith("/")
             and ref_text.rstrip('"').endswith("/")
         ):
-            self.mailbox_name += "/"
+            self.list_reference = self.mailbox_name + "/"
         self._p_simple_string(" ")
 
         # Mailbox pattern(s): either a single list-mailbox or a
@@ -1803,6 +1805,13 @@ class IMAPClientCommand:
 
     #######################################################################
     #
+    def _p_srchkey_undraft(self) -> IMAPSearch:
+        return IMAPSearch(
+            "not", search_key=IMAPSearch("keyword", keyword=r"\Draft")
+        )
+
+    #######################################################################
+    #
     def _p_srchkey_unanswered(self) -> IMAPSearch:
         return IMAPSearch("not", search_key=self._p_srchkey_answered())
 
@@ -2012,9 +2021,12 @@ class IMAPClientCommand:
         # We must match the case insensitive string 'mailbox' first because
         # our other mailbox names are case sensitive.
         #
-        mbox_name = self._p_simple_string("inbox", silent=True)
-        if mbox_name is None:
-            mbox_name = self._p_astring()
+        # NOTE: Only the complete name `inbox` is the INBOX. `inboxes` is just
+        #       a mailbox whose name starts with those five letters.
+        #
+        mbox_name = self._p_astring()
+        if mbox_name.lower() == "inbox":
+            mbox_name = "inbox"
         if mbox_name != "":
             return os.path.normpath(mbox_name)
         else:
@@ -2051,7 +2063,9 @@ class IMAPClientCommand:
     def _p_string(self) -> str:
         """A string is either a 'quoted string' or a 'literal string'"""
         try:
-            return self._p_re(_quoted_re)[1:-1]
+            # A quoted string may contain `\"` and `\\`: undo the quoting.
+            #
+            return re.sub(r'\\(["\\])', r"\1", self._p_re(_quoted_re)[1:-1])
         except NoMatch:
             pass
 
